@@ -14,7 +14,7 @@ MCInit == {[BaseState EXCEPT !.attesters = S, !.threshold = t, !.attMgr = "a2"] 
 
 MCMsgs(s, h) ==
        [type : {"EnableAttester", "DisableAttester"}, from : {"a1", "a2"}, att : Strings \cup Invalid \cup {A("k5")}]
-  \cup [type : {"UpdateSignatureThreshold"}, from : {"a1", "a2"}, amt : 0..(Cardinality(Strings) + 1)]
+  \cup [type : {"UpdateSignatureThreshold"}, from : {"a1", "a2"}, amt : 0..(Cardinality(Strings) + 1) \cup {1000000, 1000001, 2000000}]   \* (2^31, 2^31+1, 2^32-1)
 
 \* every transition of CCTP.tla's handlers on (attesters, threshold) is a step of Ind_Attesters.tla's Next, whose
 \* inductive invariant Apalache discharges for a larger universe (so that result speaks about these handlers)
